@@ -78,42 +78,6 @@ theorem C09_classes_all (a : Args) (sc : Script) :
       (smtpRun a sc).msg = droppedRep a.host false)) :=
   run_all a sc.wfail _
 
-/-- **Verdict classes against the independent reading of the stream.** If every complete line the
-server sends has at least three bytes before its LF and every reply starts with three digits
-(`specCodes`: lines split at LF, a `-` as 4th byte continues the reply, code = decimal value of the
-first line's digits), the message class and the recipient letters are those the rules give for *these*
-codes — nothing of the client's own framing or arithmetic is in the statement. -/
-theorem C09_classes_wellformed (a : Args) (sc : Script) (cs : List Nat) (h : specCodes sc.stream = some cs)
-    (hq : sc.wfail ≠ some .quit) :
-    let s : AScript := { codes := cs, n := a.rcpts.length, msgErr := a.msgErr,
-                         msgPartial := partialMsg a.msg (rblast a.msg).isNone, wfail := sc.wfail }
-    verdictOK (expect s).v (obsOf (smtpRun a sc)) = true ∧ (obsOf (smtpRun a sc)).rl = (expect s).rl := by
-  have hc : (abstr a sc).codes = cs := by
-    unfold specCodes at h
-    by_cases hw : wfLines sc.stream = true
-    · simp only [hw, if_true] at h
-      simp only [abstr, abstrF, frames_eq_specFrames _ hw]
-      generalize specFrames sc.stream = fs at h
-      induction fs generalizing cs with
-      | nil => simp [decCodes] at h; simp [h]
-      | cons f fs ih =>
-        simp only [decCodes] at h
-        cases hf : decCode f with
-        | none => simp [hf] at h
-        | some c =>
-          cases hfs : decCodes fs with
-          | none => simp [hf, hfs] at h
-          | some cs' =>
-            simp [hf, hfs] at h
-            simp [← h, codeNat_decimal f c hf, ih cs' hfs]
-    · simp [hw] at h
-  have e : abstr a sc = { codes := cs, n := a.rcpts.length, msgErr := a.msgErr,
-                          msgPartial := partialMsg a.msg (rblast a.msg).isNone, wfail := sc.wfail } := by
-    rw [partialMsg_eq, ← hc]; rfl
-  simp only
-  rw [← e]
-  exact C09_classes a sc hq
-
 /-- **K is sound (every script).** The message is reported `K` only if the greeting was 220, the HELO
 reply 250, the replies to MAIL, DATA and the final dot below 400, there is one report per recipient and
 at least one of them is `r`, no write up to and including the final flush failed, and the message was
@@ -180,6 +144,24 @@ theorem C09_spec_codes (a : Args) (sc : Script) (cs : List Nat) (h : specCodes s
           simp [hf, hfs] at h
           simp [← h, codeNat_decimal f c hf, ih cs' hfs]
   · simp [hw] at h
+
+/-- **Verdict classes against the independent reading of the stream.** If every complete line the
+server sends has at least three bytes before its LF and every reply starts with three digits
+(`specCodes`: lines split at LF, a `-` as 4th byte continues the reply, code = decimal value of the
+first line's digits), the message class and the recipient letters are those the rules give for *these*
+codes — nothing of the client's own framing or arithmetic is in the statement. -/
+theorem C09_classes_wellformed (a : Args) (sc : Script) (cs : List Nat) (h : specCodes sc.stream = some cs)
+    (hq : sc.wfail ≠ some .quit) :
+    let s : AScript := { codes := cs, n := a.rcpts.length, msgErr := a.msgErr,
+                         msgPartial := partialMsg a.msg (rblast a.msg).isNone, wfail := sc.wfail }
+    verdictOK (expect s).v (obsOf (smtpRun a sc)) = true ∧ (obsOf (smtpRun a sc)).rl = (expect s).rl := by
+  have hc : (abstr a sc).codes = cs := C09_spec_codes a sc cs h
+  have e : abstr a sc = { codes := cs, n := a.rcpts.length, msgErr := a.msgErr,
+                          msgPartial := partialMsg a.msg (rblast a.msg).isNone, wfail := sc.wfail } := by
+    rw [partialMsg_eq, ← hc]; rfl
+  simp only
+  rw [← e]
+  exact C09_classes a sc hq
 
 /-! ### the wire predicate as the driver evaluates it
 
